@@ -53,6 +53,7 @@ class Gen:
         self.depth = 0
         self.max_depth = cfg.get("max_nesting", 2)
         self.fxp = cfg.get("fxp", True)
+        self.n_helpers = 0
 
     # -- values ---------------------------------------------------------------------
     def small_int(self):
@@ -70,6 +71,10 @@ class Gen:
             p = PRIMES.get(self.cfg["backend"], PRIMES["snarkjs"])
             return r.choice([p - 1, p, p + 1, -p, (1 << 256) + 5, -(1 << 256) - 3, p * 2 + 1,
                              (1 << 255), 1 - p])
+        if bias in ("mixed", "field") and u < 0.86:
+            # wider than a float's mantissa and far below the field order, with small factors
+            return r.choice([(1 << 60) + 2, 3 << 70, -(1 << 64), 6 * 10 ** 18 + 6, 1 << 100, 15 << 55, -(1 << 70) - 7,
+                             (3 * 10 ** 9 + 3) * (4 * 10 ** 9 + 1)])
         lim = 1 << max(1, min(b, 10))
         return r.randint(-lim // 2, lim)
 
@@ -159,13 +164,13 @@ class Gen:
             return self.binary_I(r.choice(BITS), depth)
         if fam == "shift":
             op = r.choice(SHIFTS)
-            if r.random() < 0.8:
+            if r.random() < 0.7:
                 # shift amounts below the bitlength: `x >> k` with k >= bitlength returns the plain int 0,
                 # which would make an integer-typed plan variable a constant
                 return {"op": op, "a": self.operand("I", depth), "b": const(r.randrange(0, min(4, self.b))), "t": "I"}
             return {"op": op, "a": self.int_or_const(depth), "b": self.operand("I", depth), "t": "I"}
         if fam == "pow":
-            if r.random() < 0.8:
+            if r.random() < 0.6:
                 return {"op": "**", "a": self.operand("I", depth), "b": const(r.randrange(0, 4)), "t": "I"}
             return {"op": "**", "a": self.int_or_const(depth), "b": self.operand("I", depth), "t": "I"}
         if fam == "unary":
@@ -350,6 +355,10 @@ class Gen:
             kinds += ["set_res", "set_bl"]
         if self.depth < self.max_depth:
             kinds += ["guarded", "ite_call", "block_if", "block_while", "block_for"]
+        if self.depth == 0 and self.max_depth >= 1:
+            kinds.append("def_helper")
+        if self.n_helpers:
+            kinds.append("call_helper")
         k = self.pick(kinds) or "let"
         s = getattr(self, "mk_" + k)()
         if r.random() < self.cfg.get("p_try", 0.7):
@@ -383,6 +392,17 @@ class Gen:
             st["reuse_outer"] = True      # nested region entered through the enclosing region's decorator object
         st["body"] = self.scoped_body(3)
         return st
+
+    def mk_def_helper(self):
+        # a function decorated once with guarded(cond) (where it is defined) and called later, from anywhere
+        cond = self.cond_expr()
+        st = {"s": "def_helper", "cond": cond, "hid": self.n_helpers}
+        st["body"] = self.scoped_body(3)
+        self.n_helpers += 1
+        return st
+
+    def mk_call_helper(self):
+        return {"s": "call_helper", "hid": self.r.randrange(self.n_helpers)}
 
     def mk_ite_call(self):
         cond = self.operand("B", 0)
@@ -476,6 +496,7 @@ class CodeGen:
         self.block_depth = 0
         self.fn = 0
         self.origin = {}      # variable name -> description of the statement that made it
+        self.helpers = {}     # helper id -> (region id, wrapped-function variable, holder of the caller's model)
 
     # -- emit helpers
     def emit(self, s):
@@ -659,6 +680,10 @@ class CodeGen:
         self.emit("for _k in range(%d): PrivVal(_k & 7)" % s["n"])
         self.step({"kind": "bulk_priv"})
 
+    def st_bulk_pub(self, s):
+        self.emit("for _k in range(%d): PubVal(_k & 7)" % s["n"])
+        self.step({"kind": "bulk_pub"})
+
     def st_checkpoint_prove(self, s):
         self.emit("__prove__()")
         self.step({"kind": "checkpoint_prove"})
@@ -726,6 +751,41 @@ class CodeGen:
             self.ind += 1
             self.emit("__leave__(%d)" % rid)
             self.ind -= 1
+        self.wrap_try(s, body)
+        self.step({"kind": "after_region", "rid": rid})
+
+    def st_def_helper(self, s):
+        if self.mode == "native":
+            raise NotImplementedError("helpers have no native twin")
+        self.rid += 1
+        rid = self.rid
+        self.fn += 1
+        fname = "_r%d" % self.fn
+        cnm, mnm, onm, hnm = "_c%d" % rid, "_m%d" % rid, "_o%d" % rid, "_h%d" % rid
+        self.emit("%s = %s" % (cnm, self.ex(s["cond"])))
+        self.emit("%s = [__cv__(%s)]" % (mnm, cnm))
+        self.emit("%s = [()]" % onm)       # the model of the regions around the CALL, set by each call site
+        saved = (self.regions, self.region_ids, self.deco_stack)
+        self.regions, self.region_ids, self.deco_stack = ["*%s[0]" % onm, mnm], [(rid, "t")], [None]
+        self.region_body(s["body"], fname)
+        self.regions, self.region_ids, self.deco_stack = saved
+        if self.mode == "unguarded":
+            self.emit("%s = (lambda: %s() if __cv__(%s) == 1 else None)" % (hnm, fname, cnm))
+        else:
+            self.emit("%s = guarded(%s)(%s)" % (hnm, cnm, fname))
+        self.helpers[s["hid"]] = (rid, hnm, onm)
+        self.step({"kind": "def_helper"})
+
+    def st_call_helper(self, s):
+        rid, hnm, onm = self.helpers[s["hid"]]
+
+        def body():
+            self.emit("%s[0] = %s" % (onm, self.model_expr()))
+            self.emit("__enter__(%d)" % rid)
+            self.emit("try:")
+            self.emit("    %s()" % hnm)
+            self.emit("finally:")
+            self.emit("    __leave__(%d)" % rid)
         self.wrap_try(s, body)
         self.step({"kind": "after_region", "rid": rid})
 
@@ -1064,7 +1124,7 @@ class CodeGen:
         self.step({"kind": "snark_call", "desc": {"op": "snark_call"}})
 
     # -- qaptools sub-circuits (C12) -----------------------------------------------------------
-    SUBQAP_RET = {0: 1, 1: 1, 2: 2, 3: 1, 4: 1, 5: 1}
+    SUBQAP_RET = {0: 1, 1: 1, 2: 2, 3: 1, 4: 1, 5: 1, 6: 2, 7: 0}
 
     def subqap_defs(self):
         for k, f in enumerate(self.plan.get("subqaps", [])):
@@ -1086,6 +1146,16 @@ class CodeGen:
             elif t == 4:
                 # an equality test and a constant inside the function (uses the constant-one wire)
                 self.emit("return (%s == %s) * %s + 1" % (a0, a1, a0))
+            elif t == 6:
+                # no arguments at all: the function makes its own secrets and returns them (a product wire and a
+                # linear combination)
+                self.emit("s = PrivVal(%d)" % (3 + k))
+                self.emit("return [s * s, s + 3]")
+            elif t == 7:
+                # neither secret arguments nor secret results: a self-contained side condition
+                self.emit("s = PrivVal(%d)" % (2 + k))
+                self.emit("(s * s).assert_eq(%d)" % ((2 + k) ** 2))
+                self.emit("return 5")
             elif t == 5:
                 # a public value created inside the function
                 self.emit("t = %s * %s" % (a0, a1))
@@ -1097,7 +1167,7 @@ class CodeGen:
                     self.emit("return (%s + 1) * %s" % (a0, a1))
                 else:
                     g = self.plan["subqaps"][inner]
-                    args = ", ".join([a0 + " * " + a1] + [a0] * (g["nargs"] - 1))
+                    args = ", ".join(([a0 + " * " + a1] + [a0] * (g["nargs"] - 1))[:g["nargs"]])
                     self.emit("r = _sq%d(%s)" % (inner, args))
                     self.emit("return (r[0] if isinstance(r, list) else r) + %s" % a0)
             self.ind -= 1
@@ -1112,7 +1182,10 @@ class CodeGen:
         self.origin[nm] = {"op": "subqap_call"}
         def body():
             self.emit("_r = _sq%d(%s)" % (k, args))
-            self.emit("%s = _r[0] if isinstance(_r, list) else _r" % nm)
+            if self.SUBQAP_RET[f["tmpl"]] == 0:
+                self.emit("%s = %s" % (nm, fb))      # (the function returns a plain value)
+            else:
+                self.emit("%s = _r[0] if isinstance(_r, list) else _r" % nm)
         self.wrap_try(s, body, "%s = %s" % (nm, fb))
         self.step({"kind": "subqap_call", "desc": {"op": "subqap_call"}})
 
